@@ -17,7 +17,7 @@ Hypothesis Hk : 5 <= k <= 30.
 Let CB := cap_bounds cap k Hcap Hk.
 
 (* counters below lim w never make do_validate's arithmetic leave its type *)
-Definition lim (w : vwidth) : Z := match w with W64 => 2 ^ 62 | W32 => two31 - cap end.
+Definition lim (w : vwidth) : Z := match w with W64 | W64R => 2 ^ 62 | W32 => two31 - cap end.
 
 Lemma do_validate_ok m w mm c it :
   get64 mm (intent_idx cap) = it -> 0 <= c -> 0 <= it -> c < lim w -> it < lim w ->
@@ -27,6 +27,16 @@ Proof.
   - rewrite (wrap32_id c), (wrap32_id it) by (unfold in_i32, two31 in *; lia).
     rewrite add32_ok by (unfold in_i32, two31 in *; lia). reflexivity.
   - rewrite add64_ok by (unfold in_i64, two63; lia). reflexivity.
+  - rewrite add64_ok by (unfold in_i64, two63; lia). reflexivity.
+Qed.
+
+(* sequentially the second validation of the repaired receive_next always succeeds *)
+Lemma revalidate_ok m w mm c it :
+  get64 mm (intent_idx cap) = it -> 0 <= c -> 0 <= it -> c < lim w -> it < lim w -> it < c + cap ->
+  (if revalidates w then do_validate m w cap mm c else Ok true) = Ok true.
+Proof.
+  intros E Hc Hi Lc Li Lt. destruct (revalidates w); auto.
+  rewrite (do_validate_ok m w mm c it) by auto. replace (c + cap >? it) with true by lia. reflexivity.
 Qed.
 
 Definition rx_rel (c0 : Z) (ch : chan) (r : rx) (sr : srx) : Prop :=
@@ -95,14 +105,19 @@ Proof.
         (let c := if v then n else get64 mm (latest_idx cap) in
          let lp := if v then lapped r else lapped r + 1 in
          let ro := Z.land (wrap32 c) (cap - 1) in
-         a1 <- align32 m (get32 mm ro) RA ;;
-         nr <- add64 m c a1 ;;
-         if get32 mm (ro + 4) =? PADDING then
-           a2 <- align32 m (get32 mm 0) RA ;;
-           nr2 <- add64 m nr a2 ;;
-           Ok ({| cursor := nr; next_record := nr2; record_offset := 0; lapped := lp |}, true)
+         v2 <- (if revalidates w then do_validate m w cap mm c else Ok true) ;;
+         if v2 then
+           a1 <- align32 m (get32 mm ro) RA ;;
+           nr <- add64 m c a1 ;;
+           if get32 mm (ro + 4) =? PADDING then
+             a2 <- align32 m (get32 mm 0) RA ;;
+             nr2 <- add64 m nr a2 ;;
+             Ok ({| cursor := nr; next_record := nr2; record_offset := 0; lapped := lp |}, true)
+           else
+             Ok ({| cursor := c; next_record := nr; record_offset := ro; lapped := lp |}, true)
          else
-           Ok ({| cursor := c; next_record := nr; record_offset := ro; lapped := lp |}, true))) ->
+           let l := get64 mm (latest_idx cap) in
+           Ok ({| cursor := l; next_record := l; record_offset := Z.land (wrap32 l) (cap - 1); lapped := lp + 1 |}, true))) ->
      K (receive_next m w cap mm r)).
   { intros K HK. unfold receive_next. rewrite (inv_tail _ _ _ _ I), Nr. fold T. fold n.
     replace (T >? n) with true by lia. exact HK. }
@@ -123,6 +138,10 @@ Proof.
     assert (Int : intact cap mm e) by (apply (inv_live _ _ _ _ I); auto; fold T; lia).
     destruct Int as (I1 & I2 & I3). destruct We1 as (P0 & P8 & Ln & Crs & Ex & Ty & NP & _).
     rewrite <- Pe in RNhead. rewrite wrap32_land_cap with (k := k) in RNhead by auto.
+    assert (Elt : e_end e < e_pos e + cap) by (pose proof (align8_bounds (e_len e)); unfold e_end; lia).
+    rewrite (revalidate_ok m w mm (e_pos e) T) in RNhead
+      by (try apply (inv_intent _ _ _ _ I); unfold e_end in *; lia).
+    cbn [bind] in RNhead.
     rewrite I1, I2 in RNhead.
     rewrite align32_ok in RNhead by (unfold in_i32, two31; lia). cbn [bind] in RNhead.
     pose proof (align8_bounds (e_len e)) as AB.
@@ -146,6 +165,9 @@ Proof.
     pose proof (align8_bounds (e_len e)) as AB.
     assert (Tb : T < 2 ^ 62) by (unfold lim in Lim; destruct w; unfold two31 in *; lia).
     rewrite wrap32_land_cap with (k := k) in RNhead by auto. rewrite <- Pe in RNhead.
+    rewrite (revalidate_ok m w mm (e_pos e) T) in RNhead
+      by (try apply (inv_intent _ _ _ _ I); unfold e_end in *; lia).
+    cbn [bind] in RNhead.
     rewrite I1, I2 in RNhead.
     rewrite align32_ok in RNhead by (unfold in_i32, two31; lia). cbn [bind] in RNhead.
     rewrite add64_ok in RNhead by (unfold in_i64, two63; lia). cbn [bind] in RNhead.
